@@ -291,7 +291,8 @@ Definition no_ghost_trigs (s : st) : Prop := forall t, In t (trigs s) -> t_ev t 
 Lemma allowed_zero : forall mx, allowed mx 0 = 0%N.
 Proof. intros. unfold allowed. destruct (N.eqb mx 0); [reflexivity | apply N.min_l, N.le_0_l]. Qed.
 
-(* ---------- statements that are NOT proved here (validated by the correspondence check only) ---------- *)
+(* ---------- full statements; proved in ProofsEvent2.v (max_trigger_count_event) and ProofsWalk.v (trigger_exactly_once,
+   link_no_fire_after_unhook) ---------- *)
 Definition max_trigger_count_event_full_statement : Prop :=
   forall acts, ev_ok (run init acts).     (* accepted triggers of e = min(e_max, Trigger calls on e) *)
 
